@@ -34,6 +34,17 @@ pub struct WakeCase {
     pub polls: u8,
     /// The kernel completes what it has consumed before the k-th Ring::poll.
     pub complete_before_poll: Vec<bool>,
+    /// All operations of one submitter thread share one waker (one task).
+    #[serde(default)]
+    pub shared_waker: bool,
+    /// Rounds in which each submitter thread, like an executor, re-polls its
+    /// operations whose waker was invoked, while the Ring thread is running.
+    #[serde(default)]
+    pub executor_rounds: u8,
+    /// The Ring thread starts only after every submitter thread has polled
+    /// its operations once.
+    #[serde(default)]
+    pub ring_waits: bool,
     pub wake_tape: Vec<u16>,
 }
 
@@ -54,6 +65,7 @@ struct SendRing(Ring);
 unsafe impl Send for SendRing {}
 
 const TAG_BASE: u64 = 0xC03B_0000_0000;
+const START_TOKEN: u64 = 0xC03B_57A7;
 
 fn poll_slot(s: &mut Slot) -> Result<(), String> {
     let Some(f) = s.fut.as_mut() else { return Ok(()) };
@@ -121,7 +133,7 @@ pub fn run(case: &WakeCase, ctx: &mut Ctx) -> Vec<&'static str> {
     };
 
     // Prime the queue sequentially.
-    let primed = len.saturating_sub(case.gap.min(2) as usize);
+    let primed = len.saturating_sub(case.gap.min(4) as usize);
     let mut all: Vec<Slot> = Vec::new();
     for _ in 0..primed {
         let mut s = new_slot(&mut next_tag);
@@ -136,12 +148,26 @@ pub fn run(case: &WakeCase, ctx: &mut Ctx) -> Vec<&'static str> {
     let errors: Arc<Mutex<Vec<String>>> = Arc::new(Mutex::new(Vec::new()));
     let mut threads: Vec<Box<dyn FnOnce() + Send>> = Vec::new();
     let nthreads = case.submitters.len().clamp(1, 3);
+    let started = Arc::new(std::sync::atomic::AtomicUsize::new(0));
+    let ring_done = Arc::new(std::sync::atomic::AtomicBool::new(false));
+    let exec_tokens: Arc<Mutex<Vec<u64>>> = Arc::new(Mutex::new(Vec::new()));
     let mut total_new = 0;
     for t in 0..nthreads {
         let (nops, repoll) = case.submitters.get(t).copied().unwrap_or((1, false));
         let nops = nops.clamp(1, 2);
         total_new += nops as usize;
         let mut slots = SendSlots((0..nops).map(|_| new_slot(&mut next_tag)).collect());
+        let shared_waker = case.shared_waker;
+        if shared_waker {
+            let w = WakerHandle::new();
+            for s in slots.0.iter_mut() {
+                s.waker = w.clone();
+            }
+        }
+        let rounds = case.executor_rounds.min(8);
+        let started = started.clone();
+        let ring_done = ring_done.clone();
+        let exec_tokens = exec_tokens.clone();
         let results = results.clone();
         let errors = errors.clone();
         threads.push(Box::new(move || {
@@ -151,14 +177,53 @@ pub fn run(case: &WakeCase, ctx: &mut Ctx) -> Vec<&'static str> {
                     errors.lock().unwrap().push(e);
                 }
             }
+            if started.fetch_add(1, std::sync::atomic::Ordering::SeqCst) + 1 == nthreads {
+                sched::notify(sched::Reason::Token(START_TOKEN));
+            }
             if repoll {
                 // Poll again with a replaced waker (the old one must not be
                 // the only one that gets the wake-up).
+                let w = WakerHandle::new();
                 for s in slots_ref.0.iter_mut() {
                     if s.fut.is_some() {
-                        s.waker = WakerHandle::new();
+                        s.waker = if shared_waker { w.clone() } else { WakerHandle::new() };
                         if let Err(e) = poll_slot(s) {
                             errors.lock().unwrap().push(e);
+                        }
+                    }
+                }
+            }
+            // The task's executor: re-polls what was woken, concurrently with
+            // the Ring thread.
+            if rounds > 0 {
+                for _ in 0..64 {
+                    sched::point(sched::Kind::Syscall);
+                    let mut polled = false;
+                    for s in slots_ref.0.iter_mut() {
+                        if s.fut.is_some() && s.waker.wakes() > s.seen {
+                            polled = true;
+                            if let Err(e) = poll_slot(s) {
+                                errors.lock().unwrap().push(e);
+                            }
+                        }
+                    }
+                    if slots_ref.0.iter().all(|s| s.fut.is_none()) || ring_done.load(std::sync::atomic::Ordering::SeqCst) {
+                        break;
+                    }
+                    if !polled {
+                        if shared_waker {
+                            // Sleep until the task is woken (or the Ring thread
+                            // is done, which notifies every token).
+                            let token = slots_ref.0.iter().find(|s| s.fut.is_some()).map(|s| s.waker.token());
+                            if let Some(t) = token {
+                                exec_tokens.lock().unwrap().push(t);
+                                if ring_done.load(std::sync::atomic::Ordering::SeqCst) {
+                                    break;
+                                }
+                                if !sched::park(sched::Reason::Token(t)) {
+                                    break;
+                                }
+                            }
                         }
                     }
                 }
@@ -172,8 +237,14 @@ pub fn run(case: &WakeCase, ctx: &mut Ctx) -> Vec<&'static str> {
         let errors = errors.clone();
         let polls = case.polls.clamp(1, 3);
         let complete_before = case.complete_before_poll.clone();
+        let ring_waits = case.ring_waits;
+        let ring_done = ring_done.clone();
+        let exec_tokens = exec_tokens.clone();
         threads.push(Box::new(move || {
             let mut ring = ring_slot.lock().unwrap().take();
+            if ring_waits {
+                let _ = sched::park(sched::Reason::Token(START_TOKEN));
+            }
             for k in 0..polls {
                 if complete_before.get(k as usize).copied().unwrap_or(false) {
                     sched::point(sched::Kind::Syscall);
@@ -192,6 +263,12 @@ pub fn run(case: &WakeCase, ctx: &mut Ctx) -> Vec<&'static str> {
                 }
             }
             *ring_slot.lock().unwrap() = ring;
+            // Executors sleeping for a wake-up that will not come in this
+            // phase continue sequentially afterwards.
+            ring_done.store(true, std::sync::atomic::Ordering::SeqCst);
+            for t in exec_tokens.lock().unwrap().iter() {
+                sched::notify(sched::Reason::Token(*t));
+            }
         }));
     }
     let outcome = sched::run(case.wake_tape.clone(), 20_000, false, threads);
@@ -217,6 +294,12 @@ pub fn run(case: &WakeCase, ctx: &mut Ctx) -> Vec<&'static str> {
     }
     if primed + total_new > len {
         classes.push("over-subscribed");
+    }
+    if case.shared_waker {
+        classes.push("shared-waker");
+    }
+    if case.executor_rounds > 0 {
+        classes.push("concurrent-executor");
     }
 
     // The executor: re-polls only what was woken. Phase A: the kernel
